@@ -18,7 +18,7 @@ ASSUMPTIONS = ['operands created from raw codes; divisor != 0', 'format pairs wh
 EXHAUSTIVE = False    # the whole quantifier is not enumerated; complete sub-domains are listed in EXHAUSTIVE_SUBDOMAINS
 EXHAUSTIVE_SUBDOMAINS = {'quick': ['all format pairs n_word<=4 x all code pairs (divisor!=0) x {/,//,%} x 3 roundings, raw; repr for n_word<=3'],
                          'thorough': ['all format pairs n_word<=5 x all code pairs x 3 ops x 3 roundings x raw; repr for n_word<=4']}
-REQUIRED_CLASSES = {'operand>53': 500, 'inexact-quotient': 1000, 'negative-quotient': 1000, 'extreme-quotient': 50}
+REQUIRED_CLASSES = {'operand>53': 300, 'inexact-quotient': 1000, 'negative-quotient': 1000, 'extreme-quotient': 50}
 ROUNDS = ('trunc', 'floor', 'around')
 
 
